@@ -188,18 +188,380 @@ proof fn lemma_best_path_le_depth(t: &BlockTree<CachedBlock>)
 // unstable_blocks::{peek, pop, push}: behind `Rc<RefCell<Box<dyn BlocksCache>>>`, boxed iterators and the
 // entry-API OutPointsCache — outside Verus. Their decision function get_stable_child is checked by Kani (bounded).
 // ---------------------------------------------------------------------------------------
-// which child of the anchor is stable (None if none): uninterpreted here, decided by unstable_blocks::get_stable_child
-uninterp spec fn stable_child_spec(b: &UnstableBlocks) -> Option<int>;
-
-// [trusted:assumed-contract] unstable_blocks::get_stable_child (unstable_blocks.rs:383; `.iter().enumerate().map().collect()` +
-// sort_by_key are outside Verus): the index of the anchor's stable child. Decided against the property's depth rule by the
-// Kani harnesses of group stable_child (bounded in the number of children).
-#[verifier::external_body]
-fn get_stable_child(blocks: &UnstableBlocks) -> (r: Option<usize>)
+// which child of the anchor is stable (None if none). Written from the statement of C03: the candidate is the heaviest child
+// (most accumulated difficulty below it; the later-arrived one among equals); it is stable if (testnets only) it is at least
+// `bound` deep and at least `bound` deeper than EVERY other child, or if it carries at least threshold x difficulty(anchor)
+// and leads EVERY other child by at least as much.
+spec fn child_dbd(b: &UnstableBlocks, i: int) -> int { b.tree.children@[i].sdbd() }
+spec fn child_depth(b: &UnstableBlocks, i: int) -> int { b.tree.children@[i].sdepth() }
+spec fn heaviest_child(b: &UnstableBlocks, n: int) -> int
+    decreases n
+{
+    if n <= 0 { -1 } else {
+        let h = heaviest_child(b, n - 1);
+        if h < 0 || child_dbd(b, n - 1) >= child_dbd(b, h) { n - 1 } else { h }
+    }
+}
+spec fn sat_sub_int(a: int, b: int) -> int { if a >= b { a - b } else { 0 } }
+uninterp spec fn blocks_count_spec(b: &UnstableBlocks) -> usize;
+uninterp spec fn depth_bound_spec(total_unstable_blocks: usize, stability_threshold: u32) -> Depth;
+spec fn testnet_like(n: Network) -> bool { n == Network::Testnet || n == Network::Regtest }
+spec fn sc_t(b: &UnstableBlocks) -> int { b.tree.root.difficulty * b.stability_threshold }
+spec fn sc_bound(b: &UnstableBlocks) -> int { depth_bound_spec(blocks_count_spec(b), b.stability_threshold).0 as int }
+// depth rule (testnets): at least `bound` deep and at least `bound` deeper than EVERY other child
+spec fn depth_rule(b: &UnstableBlocks, h: int) -> bool {
+    &&& testnet_like(b.network)
+    &&& child_depth(b, h) >= sc_bound(b)
+    &&& forall|s: int| 0 <= s < b.tree.children@.len() && s != h ==> sat_sub_int(child_depth(b, h), #[trigger] child_depth(b, s)) >= sc_bound(b)
+}
+// difficulty rule: carries threshold x difficulty(anchor) and leads EVERY other child by as much
+spec fn too_close(b: &UnstableBlocks, h: int) -> bool {
+    exists|s: int| 0 <= s < b.tree.children@.len() && s != h && child_dbd(b, h) - (#[trigger] child_dbd(b, s)) < sc_t(b)
+}
+spec fn stable_child_spec(b: &UnstableBlocks) -> Option<int> {
+    let n = b.tree.children@.len() as int;
+    if n == 0 { None } else {
+        let h = heaviest_child(b, n);
+        if depth_rule(b, h) { Some(h) }
+        else if child_dbd(b, h) < sc_t(b) { None }
+        else if too_close(b, h) { None }
+        else { Some(h) }
+    }
+}
+proof fn lemma_heaviest_child(b: &UnstableBlocks, n: int)
+    requires 0 < n <= b.tree.children@.len(),
     ensures
-        r.is_some() <==> stable_child_spec(blocks).is_some(),
-        r matches Some(i) ==> stable_child_spec(blocks) == Some(i as int) && i < blocks.tree.children@.len(),
+        0 <= heaviest_child(b, n) < n,
+        forall|s: int| 0 <= s < n ==> (#[trigger] child_dbd(b, s)) <= child_dbd(b, heaviest_child(b, n)),
+        forall|s: int| heaviest_child(b, n) < s < n ==> (#[trigger] child_dbd(b, s)) < child_dbd(b, heaviest_child(b, n)),
+    decreases n
+{
+    if n > 1 { lemma_heaviest_child(b, n - 1); } else { assert(heaviest_child(b, 0) == -1); }
+}
+proof fn lemma_heaviest_child_unique(b: &UnstableBlocks, n: int, k: int)
+    requires 0 < n <= b.tree.children@.len(), 0 <= k < n,
+        forall|s: int| 0 <= s < n ==> (#[trigger] child_dbd(b, s)) <= child_dbd(b, k),
+        forall|s: int| k < s < n ==> (#[trigger] child_dbd(b, s)) < child_dbd(b, k),
+    ensures heaviest_child(b, n) == k,
+{
+    lemma_heaviest_child(b, n);
+    let h = heaviest_child(b, n);
+    if h < k { assert(child_dbd(b, k) < child_dbd(b, h)); assert(child_dbd(b, h) <= child_dbd(b, k)); }
+    if h > k { assert(child_dbd(b, h) < child_dbd(b, k)); assert(child_dbd(b, k) <= child_dbd(b, h)); }
+}
+//@lemma fn=lemma_stable_child_never_early props=C03
+// C03 "never early": the anchor advances only to a child that satisfies one of the two rules against EVERY sibling
+proof fn lemma_stable_child_never_early(b: &UnstableBlocks)
+    requires stable_child_spec(b) is Some,
+    ensures ({
+        let c = stable_child_spec(b).unwrap();
+        let n = b.tree.children@.len() as int;
+        &&& 0 <= c < n
+        &&& ((child_dbd(b, c) >= sc_t(b) && forall|s: int| 0 <= s < n && s != c ==> child_dbd(b, c) - (#[trigger] child_dbd(b, s)) >= sc_t(b))
+             || depth_rule(b, c))
+    }),
+{
+    lemma_heaviest_child(b, b.tree.children@.len() as int);
+}
+//@lemma fn=lemma_stable_child_never_withheld props=C03
+// C03 "never withheld": a child that carries threshold x difficulty(anchor) (>= 1) and leads every sibling by as much makes the anchor advance
+proof fn lemma_stable_child_never_withheld(b: &UnstableBlocks, c: int)
+    requires
+        0 <= c < b.tree.children@.len(),
+        sc_t(b) >= 1,
+        child_dbd(b, c) >= sc_t(b),
+        forall|s: int| 0 <= s < b.tree.children@.len() && s != c ==> child_dbd(b, c) - (#[trigger] child_dbd(b, s)) >= sc_t(b),
+    ensures stable_child_spec(b) is Some,
+{
+    let n = b.tree.children@.len() as int;
+    lemma_heaviest_child(b, n);
+    let h = heaviest_child(b, n);
+    if h != c { assert(child_dbd(b, c) - child_dbd(b, h) >= 1); }
+}
+
+spec fn has_entry(v: Seq<(DifficultyBasedDepth, usize)>, s: int) -> bool { exists|p: int| 0 <= p < v.len() && (#[trigger] v[p]).1 == s }
+// the vector get_stable_child sorts: one (difficulty-based depth, index) pair per child, ascending by depth, the later child last among equals
+spec fn sorted_pairs(b: &UnstableBlocks, v: Seq<(DifficultyBasedDepth, usize)>) -> bool {
+    let n = b.tree.children@.len() as int;
+    &&& v.len() == n
+    &&& forall|p: int| 0 <= p < n ==> 0 <= (#[trigger] v[p]).1 < n && v[p].0.0 == child_dbd(b, v[p].1 as int)
+    &&& forall|s: int| 0 <= s < n ==> #[trigger] has_entry(v, s)
+    &&& forall|i: int, j: int| 0 <= i < j < n ==> v[i].0.0 <= v[j].0.0
+    &&& forall|i: int, j: int| 0 <= i < j < n && v[i].0.0 == v[j].0.0 ==> v[i].1 < v[j].1
+}
+proof fn lemma_sorted_pairs(b: &UnstableBlocks, orig: Seq<(DifficultyBasedDepth, usize)>, v: Seq<(DifficultyBasedDepth, usize)>)
+    requires
+        orig =~= dbd_pairs(b),
+        b.tree.children@.len() <= usize::MAX,
+        forall|i: int| 0 <= i < b.tree.children@.len() ==> 0 <= #[trigger] child_dbd(b, i) <= u128::MAX,
+        orig.to_multiset() == v.to_multiset(), orig.len() == v.len(),
+        forall|i: int, j: int| 0 <= i < j < v.len() ==> v[i].0.0 <= v[j].0.0,
+        forall|i: int, j: int| 0 <= i < j < v.len() && v[i].0.0 == v[j].0.0 ==> v[i].1 < v[j].1,
+    ensures sorted_pairs(b, v),
+{
+    let n = b.tree.children@.len() as int;
+    lemma_perm_pairs(orig, v);
+    assert forall|p: int| 0 <= p < n implies 0 <= (#[trigger] v[p]).1 < n && v[p].0.0 == child_dbd(b, v[p].1 as int) by {
+        assert(orig.contains(v[p]));
+        let k = choose|k: int| 0 <= k < orig.len() && orig[k] == v[p];
+        assert(orig[k] == dbd_pairs(b)[k]);
+    }
+    assert forall|s: int| 0 <= s < n implies #[trigger] has_entry(v, s) by {
+        assert(orig[s] == dbd_pairs(b)[s]);
+        assert(v.contains(orig[s]));
+        let p = choose|p: int| 0 <= p < v.len() && v[p] == orig[s];
+        assert(v[p].1 == s);
+    }
+}
+// the last entry is the heaviest child; the one before it bounds every other child
+proof fn lemma_last_is_heaviest(b: &UnstableBlocks, v: Seq<(DifficultyBasedDepth, usize)>)
+    requires sorted_pairs(b, v), v.len() >= 1,
+    ensures heaviest_child(b, v.len() as int) == v[v.len() - 1].1,
+{
+    let n = v.len() as int;
+    let k = v[n - 1].1 as int;
+    assert forall|s: int| 0 <= s < n implies (#[trigger] child_dbd(b, s)) <= child_dbd(b, k) by {
+        assert(has_entry(v, s));
+        let p = choose|p: int| 0 <= p < v.len() && (#[trigger] v[p]).1 == s;
+        if p < n - 1 { assert(v[p].0.0 <= v[n - 1].0.0); }
+    }
+    assert forall|s: int| k < s < n implies (#[trigger] child_dbd(b, s)) < child_dbd(b, k) by {
+        assert(has_entry(v, s));
+        let p = choose|p: int| 0 <= p < v.len() && (#[trigger] v[p]).1 == s;
+        if p < n - 1 { assert(v[p].0.0 <= v[n - 1].0.0); if v[p].0.0 == v[n - 1].0.0 { assert(v[p].1 < v[n - 1].1); } }
+    }
+    lemma_heaviest_child_unique(b, n, k);
+}
+proof fn lemma_second_bounds_others(b: &UnstableBlocks, v: Seq<(DifficultyBasedDepth, usize)>)
+    requires sorted_pairs(b, v), v.len() >= 2,
+    ensures
+        v[v.len() - 2].1 != v[v.len() - 1].1,
+        forall|s: int| 0 <= s < v.len() && s != v[v.len() - 1].1 ==> (#[trigger] child_dbd(b, s)) <= v[v.len() - 2].0.0,
+{
+    let n = v.len() as int;
+    let h = v[n - 1].1 as int;
+    if v[n - 2].1 == v[n - 1].1 { assert(v[n - 2].0.0 == v[n - 1].0.0); assert(v[n - 2].1 < v[n - 1].1); }
+    assert forall|s: int| 0 <= s < n && s != h implies (#[trigger] child_dbd(b, s)) <= v[n - 2].0.0 by {
+        assert(has_entry(v, s));
+        let p = choose|p: int| 0 <= p < v.len() && (#[trigger] v[p]).1 == s;
+        assert(p != n - 1);
+        if p < n - 2 { assert(v[p].0.0 <= v[n - 2].0.0); }
+    }
+}
+// the decision, from facts about the heaviest child h
+proof fn lemma_decide_depth(b: &UnstableBlocks, h: int)
+    requires b.tree.children@.len() > 0, h == heaviest_child(b, b.tree.children@.len() as int), depth_rule(b, h),
+    ensures stable_child_spec(b) == Some(h),
+{}
+proof fn lemma_decide_light(b: &UnstableBlocks, h: int)
+    requires b.tree.children@.len() > 0, h == heaviest_child(b, b.tree.children@.len() as int), !depth_rule(b, h), child_dbd(b, h) < sc_t(b),
+    ensures stable_child_spec(b) is None,
+{}
+proof fn lemma_decide_close(b: &UnstableBlocks, h: int, s: int)
+    requires b.tree.children@.len() > 0, h == heaviest_child(b, b.tree.children@.len() as int), !depth_rule(b, h),
+        0 <= s < b.tree.children@.len(), s != h, child_dbd(b, h) - child_dbd(b, s) < sc_t(b),
+    ensures stable_child_spec(b) is None,
+{}
+proof fn lemma_decide_some(b: &UnstableBlocks, h: int)
+    requires b.tree.children@.len() > 0, h == heaviest_child(b, b.tree.children@.len() as int), child_dbd(b, h) >= sc_t(b),
+        forall|s: int| 0 <= s < b.tree.children@.len() && s != h ==> child_dbd(b, h) - (#[trigger] child_dbd(b, s)) >= sc_t(b),
+    ensures stable_child_spec(b) == Some(h),
+{}
+
+// [trusted:stand-in] blocks_count (recursive `.map().sum()` over the tree): an opaque count, only fed to the depth bound;
+// testnet_unstable_max_depth_difference (f64 interpolation): an uninterpreted function of its two arguments — its range
+// min(threshold, 499) <= D <= 500 is the Kani-proved contract c03_depth_bound_contract and is not needed here
+#[verifier::external_body]
+fn blocks_count(blocks: &UnstableBlocks) -> (r: usize) ensures r == blocks_count_spec(blocks) { unimplemented!() }
+#[verifier::external_body]
+fn testnet_unstable_max_depth_difference(total_unstable_blocks: usize, stability_threshold: u32) -> (r: Depth)
+    ensures r == depth_bound_spec(total_unstable_blocks, stability_threshold),
 { unimplemented!() }
+impl<Block> BlockTree<Block> {
+//@extract file=canister/src/blocktree.rs in="impl<Block> BlockTree<Block>" item="fn children" props=C03
+//@ ret r
+//@ spec
+//@| ensures r@ == self.children@,
+//@end
+}
+spec fn dbd_pairs(b: &UnstableBlocks) -> Seq<(DifficultyBasedDepth, usize)> {
+    Seq::new(b.tree.children@.len(), |i: int| (DifficultyBasedDepth(child_dbd(b, i) as u128), i as usize))
+}
+// [trusted:assumed-spec] `v.sort_by_key(|(d, _)| *d)` (std's stable sort; R16 turns the call into this one): a permutation, sorted by
+// the first component; stability, for an input whose second components increase with the position: equal keys stay in that order
+#[verifier::external_body]
+fn vp_sort_by_key_first(v: &mut Vec<(DifficultyBasedDepth, usize)>)
+    ensures
+        final(v)@.to_multiset() == old(v)@.to_multiset(),
+        final(v)@.len() == old(v)@.len(),
+        forall|i: int, j: int| 0 <= i < j < final(v)@.len() ==> final(v)@[i].0.0 <= final(v)@[j].0.0,
+        (forall|i: int, j: int| 0 <= i < j < old(v)@.len() ==> old(v)@[i].1 < old(v)@[j].1)
+            ==> (forall|i: int, j: int| 0 <= i < j < final(v)@.len() && final(v)@[i].0.0 == final(v)@[j].0.0 ==> final(v)@[i].1 < final(v)@[j].1),
+{ unimplemented!() }
+proof fn lemma_perm_pairs(orig: Seq<(DifficultyBasedDepth, usize)>, sorted: Seq<(DifficultyBasedDepth, usize)>)
+    requires orig.to_multiset() == sorted.to_multiset(),
+    ensures
+        forall|p: int| 0 <= p < sorted.len() ==> orig.contains(#[trigger] sorted[p]),
+        forall|i: int| 0 <= i < orig.len() ==> sorted.contains(#[trigger] orig[i]),
+{
+    orig.to_multiset_ensures();
+    sorted.to_multiset_ensures();
+    assert forall|p: int| 0 <= p < sorted.len() implies orig.contains(#[trigger] sorted[p]) by {
+        assert(sorted.contains(sorted[p]));
+        assert(sorted.to_multiset().count(sorted[p]) > 0);
+    }
+    assert forall|i: int| 0 <= i < orig.len() implies sorted.contains(#[trigger] orig[i]) by {
+        assert(orig.contains(orig[i]));
+        assert(orig.to_multiset().count(orig[i]) > 0);
+    }
+}
+
+// what get_stable_child needs of the tree: the well-formedness of the depth functions (C02/C03) and, for every block that can
+// become the anchor, threshold x difficulty < 2^128 ([assumption, stated] as part of tree_ok)
+impl BlockTree<CachedBlock> {
+    spec fn difficulties_small(&self, threshold: u32) -> bool
+        decreases self
+    {
+        &&& self.root.difficulty * threshold <= u128::MAX
+        &&& forall|i: int| 0 <= i < self.children@.len() ==> (#[trigger] self.children@[i]).difficulties_small(threshold)
+    }
+}
+spec fn tree_ok(b: &UnstableBlocks) -> bool {
+    b.tree.wf() && b.tree.wf_depth() && b.tree.difficulties_small(b.stability_threshold)
+}
+proof fn lemma_tree_ok_child(a: &UnstableBlocks, b: &UnstableBlocks, i: int)
+    requires tree_ok(a), 0 <= i < a.tree.children@.len(), b.tree == a.tree.children@[i], b.stability_threshold == a.stability_threshold,
+    ensures tree_ok(b),
+{
+    assert(a.tree.children@[i].wf());
+    assert(a.tree.children@[i].wf_depth());
+    assert(a.tree.children@[i].difficulties_small(a.stability_threshold));
+}
+// unstable_blocks::get_stable_child (unstable_blocks.rs:383) on its real decision logic, for ANY number of children.
+// R16 (pipeline desugaring): `xs.iter().enumerate().map(|(i, x)| e).collect()` => a loop pushing `e` with a counter;
+// `v.sort_by_key(|(d, _)| *d)` => vp_sort_by_key_first(&mut v); `v.iter().filter(|(_, i)| p).map(|(_, i)| e).max().unwrap_or(z)` => a loop
+// keeping the maximum (std::cmp::max, i.e. the later one among equals, as Iterator::max does)
+//@extract file=canister/src/unstable_blocks.rs item="fn get_stable_child" props=C03
+//@ ret r
+//@ rewrite R16 "let mut difficulty_based_depths: Vec<_> = blocks\s*\.tree\s*\.children\(\)\s*\.iter\(\)\s*\.enumerate\(\)\s*\.map\(\|\((\w+), (\w+)\)\| (\(.*?\))\)\s*\.collect\(\);" => "let mut difficulty_based_depths: Vec<(DifficultyBasedDepth, usize)> = Vec::new();\n    let mut vp_idx: usize = 0;\n    for \2 in blocks.tree.children().iter() {\n        let \1 = vp_idx;\n        difficulty_based_depths.push(\3);\n        vp_idx = vp_idx + 1;\n    }\n    let ghost vp_orig = difficulty_based_depths@;"
+//@ rewrite R16 "difficulty_based_depths\.sort_by_key\(\|\(difficulty_based_depth, _\)\| \*difficulty_based_depth\);" => "vp_sort_by_key_first(&mut difficulty_based_depths);"
+//@ rewrite R16 "let second_deepest_depth = difficulty_based_depths\s*\.iter\(\)\s*\.filter\(\|\(_, idx\)\| idx != child_idx\)\s*\.map\(\|\(_, idx\)\| (blocks\.tree\.children\(\)\[\*idx\]\.depth\(\))\)\s*\.max\(\)\s*\.unwrap_or\((Depth::new\(0\))\);" => "let mut vp_max: Option<Depth> = None;\n            for vp_e in difficulty_based_depths.iter() {\n                let idx = &vp_e.1;\n                if idx != child_idx {\n                    let vp_d = \1;\n                    vp_max = match vp_max { None => Some(vp_d), Some(vp_m) => Some(std::cmp::max(vp_m, vp_d)) };\n                }\n            }\n            let second_deepest_depth = vp_max.unwrap_or(\2);"
+//@ spec
+//@| requires tree_ok(blocks),
+//@| ensures
+//@|     r.is_some() <==> stable_child_spec(blocks).is_some(),
+//@|     r matches Some(i) ==> stable_child_spec(blocks) == Some(i as int) && i < blocks.tree.children@.len(),
+//@ start
+//@| let ghost vp_n = blocks.tree.children@.len() as int;
+//@| let ghost mut vp_h: int = 0;
+//@ loop 1 binder=itc
+//@| invariant
+//@|     vp_idx == itc.index@,
+//@|     blocks.tree.wf(), blocks.tree.wf_depth(),
+//@|     difficulty_based_depths@ =~= dbd_pairs(blocks).subrange(0, itc.index@ as int),
+//@|     forall|i: int| 0 <= i < itc.index@ ==> 0 <= #[trigger] child_dbd(blocks, i) <= u128::MAX,
+//@ before "difficulty_based_depths.push("
+//@| proof {
+//@|     assert(itc.index@ < blocks.tree.children@.len());
+//@|     assert(blocks.tree.children@.len() == blocks.tree.children.len());
+//@|     assert(*child == blocks.tree.children@[itc.index@ as int]);
+//@|     assert(blocks.tree.children@[itc.index@ as int].wf());
+//@| }
+//@ before "vp_sort_by_key_first(&mut difficulty_based_depths);"
+//@| proof {
+//@|     assert(vp_orig =~= dbd_pairs(blocks));
+//@|     assert(forall|i: int| 0 <= i < vp_n ==> 0 <= #[trigger] child_dbd(blocks, i) <= u128::MAX);
+//@|     assert(blocks.tree.children@.len() == blocks.tree.children.len());
+//@|     assert(forall|i: int, j: int| 0 <= i < j < vp_orig.len() ==> vp_orig[i].1 < vp_orig[j].1);
+//@| }
+//@ after "vp_sort_by_key_first(&mut difficulty_based_depths);"
+//@| let ghost vp_v = difficulty_based_depths@;
+//@| proof { lemma_sorted_pairs(blocks, vp_orig, vp_v); }
+//@ before "let (difficulty_based_deepest_depth, child_idx) = difficulty_based_depths.last()?;"
+//@| proof { assert(difficulty_based_stability_threshold.0 == sc_t(blocks)); assert(network == blocks.network); }
+//@ before "let max_depth_difference ="
+//@| proof {
+//@|     assert(vp_v[vp_n - 1] == (*difficulty_based_deepest_depth, *child_idx));
+//@|     lemma_last_is_heaviest(blocks, vp_v);
+//@|     vp_h = *child_idx as int;
+//@|     assert(0 <= vp_h < vp_n && child_dbd(blocks, vp_h) == difficulty_based_deepest_depth.0);
+//@| }
+//@ before "if deepest_depth >= max_depth_difference {"
+//@| proof {
+//@|     assert(blocks.tree.children@[vp_h].wf_depth());
+//@|     assert(deepest_depth.0 == child_depth(blocks, vp_h));
+//@|     assert(max_depth_difference.0 == sc_bound(blocks));
+//@|     if deepest_depth.0 < max_depth_difference.0 { assert(!depth_rule(blocks, vp_h)); }
+//@| }
+//@ before "if network == Network::Testnet || network == Network::Regtest {"
+//@| proof {
+//@|     if !testnet_like(blocks.network) { assert(!depth_rule(blocks, vp_h)); }
+//@| }
+//@ loop 2 binder=ite
+//@| invariant
+//@|     vp_v == difficulty_based_depths@, vp_n == blocks.tree.children@.len(), 0 <= vp_h < vp_n, vp_h == *child_idx,
+//@|     blocks.tree.wf_depth(), sorted_pairs(blocks, vp_v),
+//@|     // vp_max is the greatest depth among the entries seen whose child differs from the leader
+//@|     forall|p: int| 0 <= p < ite.index@ && vp_v[p].1 != vp_h ==> vp_max.is_some() && child_depth(blocks, (#[trigger] vp_v[p]).1 as int) <= vp_max.unwrap().0,
+//@|     vp_max matches Some(m) ==> exists|p: int| 0 <= p < ite.index@ && vp_v[p].1 != vp_h && child_depth(blocks, (#[trigger] vp_v[p]).1 as int) == m.0,
+//@ after "let idx = &vp_e.1;"
+//@| proof {
+//@|     assert(*vp_e == vp_v[ite.index@ as int]);
+//@|     assert(0 <= vp_v[ite.index@ as int].1 < vp_n);
+//@|     assert(blocks.tree.children@.len() == blocks.tree.children.len());
+//@|     assert(blocks.tree.children@[*idx as int].wf_depth());
+//@| }
+//@ before "if deepest_depth.saturating_sub(second_deepest_depth) >= max_depth_difference {"
+//@| proof {
+//@|     // the loop's maximum is the greatest depth among the OTHER children
+//@|     assert forall|s: int| 0 <= s < vp_n && s != vp_h implies child_depth(blocks, s) <= second_deepest_depth.0 by {
+//@|         assert(has_entry(vp_v, s));
+//@|         let p = choose|p: int| 0 <= p < vp_v.len() && (#[trigger] vp_v[p]).1 == s;
+//@|     }
+//@|     if sat_sub_int(deepest_depth.0 as int, second_deepest_depth.0 as int) >= max_depth_difference.0 {
+//@|         assert(depth_rule(blocks, vp_h));
+//@|         lemma_decide_depth(blocks, vp_h);
+//@|     } else {
+//@|         // some other child is too close in depth
+//@|         if vp_max is Some {
+//@|             let p = choose|p: int| 0 <= p < vp_n && vp_v[p].1 != vp_h && child_depth(blocks, (#[trigger] vp_v[p]).1 as int) == vp_max.unwrap().0;
+//@|             let s = vp_v[p].1 as int;
+//@|             assert(0 <= s < vp_n && s != vp_h && sat_sub_int(child_depth(blocks, vp_h), child_depth(blocks, s)) < sc_bound(blocks));
+//@|         }
+//@|         assert(!depth_rule(blocks, vp_h));
+//@|     }
+//@| }
+//@ before "if *difficulty_based_deepest_depth < difficulty_based_stability_threshold {"
+//@| proof {
+//@|     assert(!depth_rule(blocks, vp_h));
+//@|     if difficulty_based_deepest_depth.0 < difficulty_based_stability_threshold.0 { lemma_decide_light(blocks, vp_h); }
+//@| }
+//@ before "if *difficulty_based_deepest_depth - *difficulty_based_second_deepest_depth"
+//@| proof {
+//@|     lemma_second_bounds_others(blocks, vp_v);
+//@|     assert(vp_v[vp_n - 2].0 == *difficulty_based_second_deepest_depth);
+//@|     let s2 = vp_v[vp_n - 2].1 as int;
+//@|     if difficulty_based_deepest_depth.0 - difficulty_based_second_deepest_depth.0 < difficulty_based_stability_threshold.0 {
+//@|         lemma_decide_close(blocks, vp_h, s2);
+//@|     }
+//@| }
+//@ before "if difficulty_based_depths.len() >= 2 {"
+//@| proof {
+//@|     assert(!(difficulty_based_deepest_depth.0 < difficulty_based_stability_threshold.0));
+//@|     assert(child_dbd(blocks, vp_h) >= sc_t(blocks));
+//@| }
+//@ before "Some(*child_idx)" nth=2
+//@| proof {
+//@|     assert(child_dbd(blocks, vp_h) >= sc_t(blocks));
+//@|     if vp_n >= 2 {
+//@|         lemma_second_bounds_others(blocks, vp_v);
+//@|         assert(difficulty_based_depths@[vp_n - 2] == vp_v[vp_n - 2]);
+//@|         assert(difficulty_based_deepest_depth.0 - vp_v[vp_n - 2].0.0 >= sc_t(blocks));
+//@|     }
+//@|     assert forall|s: int| 0 <= s < vp_n && s != vp_h implies child_dbd(blocks, vp_h) - (#[trigger] child_dbd(blocks, s)) >= sc_t(blocks) by {}
+//@|     lemma_decide_some(blocks, vp_h);
+//@| }
+//@end
 
 // [trusted:stand-in] the cache-side effects of pop: boxed iterators / entry-API maps / Rc<RefCell<..>> caches. They touch only
 // the cache fields named in their signatures (&mut self), never the tree.
@@ -244,6 +606,7 @@ impl UnstableBlocks {
 //@ ret r
 //@ rewrite R9 "\.map\(\|_\| blocks\.tree\.root\(\)\)" => ".map(|vp_i: usize| -> (vp_b: &CachedBlock) ensures *vp_b == blocks.tree.root { blocks.tree.root() })"
 //@ spec
+//@| requires tree_ok(blocks),
 //@| ensures
 //@|     r.is_some() <==> stable_child_spec(blocks).is_some(),
 //@|     r matches Some(b) ==> *b == blocks.tree.root,
@@ -254,6 +617,7 @@ impl UnstableBlocks {
 //@extract file=canister/src/unstable_blocks.rs item="fn pop" props=C03
 //@ ret r
 //@ spec
+//@| requires tree_ok(old(blocks)),
 //@| ensures
 //@|     r.is_some() <==> stable_child_spec(old(blocks)).is_some(),
 //@|     r.is_none() ==> *final(blocks) == *old(blocks),
@@ -318,12 +682,14 @@ proof fn lemma_child_depth_smaller(t: &BlockTree<CachedBlock>, i: int)
 
 //@extract file=canister/src/state.rs item="fn ingest_stable_blocks_into_utxoset" props=C03
 //@ ret r
-//@ rewrite R9 "fn pop_block\(state: &mut State, ingested_block_hash: BlockHash\)( -> [\w:<>]+)? \{" => "fn pop_block(state: &mut State, ingested_block_hash: BlockHash)\1 requires stable_child_spec(&old(state).unstable_blocks).is_some(), old(state).unstable_blocks.tree.root.block_hash == ingested_block_hash, old(state).utxos.next_height >= 1, ensures final(state).utxos == old(state).utxos, headers_below_unchanged(old(state).stable_block_headers.by_height@, final(state).stable_block_headers.by_height@, (old(state).utxos.next_height - 1) as Height), final(state).metrics == old(state).metrics, 0 <= stable_child_spec(&old(state).unstable_blocks).unwrap() < old(state).unstable_blocks.tree.children@.len(), final(state).unstable_blocks.tree == old(state).unstable_blocks.tree.children@[stable_child_spec(&old(state).unstable_blocks).unwrap()], {"
+//@ rewrite R9 "fn pop_block\(state: &mut State, ingested_block_hash: BlockHash\)( -> [\w:<>]+)? \{" => "fn pop_block(state: &mut State, ingested_block_hash: BlockHash)\1 requires tree_ok(&old(state).unstable_blocks), stable_child_spec(&old(state).unstable_blocks).is_some(), old(state).unstable_blocks.tree.root.block_hash == ingested_block_hash, old(state).utxos.next_height >= 1, ensures final(state).utxos == old(state).utxos, headers_below_unchanged(old(state).stable_block_headers.by_height@, final(state).stable_block_headers.by_height@, (old(state).utxos.next_height - 1) as Height), final(state).metrics == old(state).metrics, final(state).unstable_blocks.stability_threshold == old(state).unstable_blocks.stability_threshold, 0 <= stable_child_spec(&old(state).unstable_blocks).unwrap() < old(state).unstable_blocks.tree.children@.len(), final(state).unstable_blocks.tree == old(state).unstable_blocks.tree.children@[stable_child_spec(&old(state).unstable_blocks).unwrap()], {"
 //@ spec
 //@| requires
 //@|     wf_ingesting(old(state)),
+//@|     tree_ok(&old(state).unstable_blocks),
 //@|     old(state).utxos.next_height as int + old(state).unstable_blocks.tree.sdepth() + 0x10_0000 < u32::MAX,
 //@| ensures
+//@|     tree_ok(&final(state).unstable_blocks),
 //@|     // stable height never decreases
 //@|     final(state).utxos.next_height >= old(state).utxos.next_height,
 //@|     // the block recorded at a stable height never changes: entries below the old stable height are untouched
@@ -338,6 +704,7 @@ proof fn lemma_child_depth_smaller(t: &BlockTree<CachedBlock>, i: int)
 //@ loop 1
 //@| invariant
 //@|     state.utxos.ingesting is None,
+//@|     tree_ok(&state.unstable_blocks),
 //@|     state.utxos.next_height >= old(state).utxos.next_height,
 //@|     state.utxos.next_height as int + state.unstable_blocks.tree.sdepth() + 0x10_0000 < u32::MAX,
 //@|     headers_below_unchanged(old(state).stable_block_headers.by_height@, state.stable_block_headers.by_height@, old(state).utxos.next_height),
@@ -348,10 +715,14 @@ proof fn lemma_child_depth_smaller(t: &BlockTree<CachedBlock>, i: int)
 //@ after "pop_block(state, ingested_block_hash);" nth=2
 //@| proof {
 //@|     lemma_child_depth_smaller(&vp_loop_blocks.tree, stable_child_spec(&vp_loop_blocks).unwrap());
+//@|     lemma_tree_ok_child(&vp_loop_blocks, &state.unstable_blocks, stable_child_spec(&vp_loop_blocks).unwrap());
 //@|     state.unstable_blocks.tree.lemma_depth_pos();
 //@| }
 //@ after "pop_block(state, ingested_block_hash);" nth=1
-//@| proof { lemma_child_depth_smaller(&vp_pre_blocks.tree, stable_child_spec(&vp_pre_blocks).unwrap()); }
+//@| proof {
+//@|     lemma_child_depth_smaller(&vp_pre_blocks.tree, stable_child_spec(&vp_pre_blocks).unwrap());
+//@|     lemma_tree_ok_child(&vp_pre_blocks, &state.unstable_blocks, stable_child_spec(&vp_pre_blocks).unwrap());
+//@| }
 //@ before "let block = new_stable_block.block();"
 //@| let ghost vp_loop_blocks = state.unstable_blocks;
 //@| proof { state.unstable_blocks.tree.lemma_depth_pos(); }
@@ -361,11 +732,12 @@ proof fn lemma_child_depth_smaller(t: &BlockTree<CachedBlock>, i: int)
 
 //@extract file=canister/src/state.rs item="fn ingest_stable_blocks_into_utxoset" props=C07 rename=ingest_stable_blocks_into_utxoset_c07
 //@ ret r
-//@ rewrite R9 "fn pop_block\(state: &mut State, ingested_block_hash: BlockHash\)( -> [\w:<>]+)? \{" => "fn pop_block(state: &mut State, ingested_block_hash: BlockHash)\1 requires stable_child_spec(&old(state).unstable_blocks).is_some(), old(state).unstable_blocks.tree.root.block_hash == ingested_block_hash, old(state).utxos.next_height >= 1, ensures final(state).utxos == old(state).utxos, final(state).stable_block_headers.by_height@ == old(state).stable_block_headers.by_height@.insert((old(state).utxos.next_height - 1) as Height, ingested_block_hash), final(state).metrics == old(state).metrics, 0 <= stable_child_spec(&old(state).unstable_blocks).unwrap() < old(state).unstable_blocks.tree.children@.len(), final(state).unstable_blocks.tree == old(state).unstable_blocks.tree.children@[stable_child_spec(&old(state).unstable_blocks).unwrap()], {"
+//@ rewrite R9 "fn pop_block\(state: &mut State, ingested_block_hash: BlockHash\)( -> [\w:<>]+)? \{" => "fn pop_block(state: &mut State, ingested_block_hash: BlockHash)\1 requires tree_ok(&old(state).unstable_blocks), stable_child_spec(&old(state).unstable_blocks).is_some(), old(state).unstable_blocks.tree.root.block_hash == ingested_block_hash, old(state).utxos.next_height >= 1, ensures final(state).utxos == old(state).utxos, final(state).stable_block_headers.by_height@ == old(state).stable_block_headers.by_height@.insert((old(state).utxos.next_height - 1) as Height, ingested_block_hash), final(state).metrics == old(state).metrics, final(state).unstable_blocks.stability_threshold == old(state).unstable_blocks.stability_threshold, 0 <= stable_child_spec(&old(state).unstable_blocks).unwrap() < old(state).unstable_blocks.tree.children@.len(), final(state).unstable_blocks.tree == old(state).unstable_blocks.tree.children@[stable_child_spec(&old(state).unstable_blocks).unwrap()], {"
 //@ spec
 //@| requires
 //@|     wf_ingesting(old(state)),
 //@|     wf_headers(old(state)),
+//@|     tree_ok(&old(state).unstable_blocks),
 //@|     old(state).utxos.next_height as int + old(state).unstable_blocks.tree.sdepth() + 0x10_0000 < u32::MAX,
 //@| ensures
 //@|     // C07: at EVERY exit (also the paused ones) the store holds exactly the headers below the stable height,
@@ -374,6 +746,7 @@ proof fn lemma_child_depth_smaller(t: &BlockTree<CachedBlock>, i: int)
 //@ loop 1
 //@| invariant
 //@|     state.utxos.ingesting is None,
+//@|     tree_ok(&state.unstable_blocks),
 //@|     state.utxos.next_height >= old(state).utxos.next_height,
 //@|     state.utxos.next_height as int + state.unstable_blocks.tree.sdepth() + 0x10_0000 < u32::MAX,
 //@|     headers_below_unchanged(old(state).stable_block_headers.by_height@, state.stable_block_headers.by_height@, old(state).utxos.next_height),
@@ -385,10 +758,14 @@ proof fn lemma_child_depth_smaller(t: &BlockTree<CachedBlock>, i: int)
 //@ after "pop_block(state, ingested_block_hash);" nth=2
 //@| proof {
 //@|     lemma_child_depth_smaller(&vp_loop_blocks.tree, stable_child_spec(&vp_loop_blocks).unwrap());
+//@|     lemma_tree_ok_child(&vp_loop_blocks, &state.unstable_blocks, stable_child_spec(&vp_loop_blocks).unwrap());
 //@|     state.unstable_blocks.tree.lemma_depth_pos();
 //@| }
 //@ after "pop_block(state, ingested_block_hash);" nth=1
-//@| proof { lemma_child_depth_smaller(&vp_pre_blocks.tree, stable_child_spec(&vp_pre_blocks).unwrap()); }
+//@| proof {
+//@|     lemma_child_depth_smaller(&vp_pre_blocks.tree, stable_child_spec(&vp_pre_blocks).unwrap());
+//@|     lemma_tree_ok_child(&vp_pre_blocks, &state.unstable_blocks, stable_child_spec(&vp_pre_blocks).unwrap());
+//@| }
 //@ before "let block = new_stable_block.block();"
 //@| let ghost vp_loop_blocks = state.unstable_blocks;
 //@| proof { state.unstable_blocks.tree.lemma_depth_pos(); }
